@@ -121,6 +121,49 @@ def sig_case(ctx, E, name, params, lines, reals, label):
             ctx.violate({'clause': 'method-stays'}, f'{decl} removed, instance ({who}) still has {mname}', rep); return
 
 
+def twin_ops_pass(ctx):
+    """operations that look alike — same name, same parameter names, same required flags — on unrelated classes, with
+    optional parameters of *different* types whose defaults are not literals (two enumerations, an enumeration and a
+    string): each generated method is defaulted by its own declaration, before and after the other one is declared"""
+    E = _ecore()
+    n = 16 if ctx.quick() else 200
+    for k in range(n):
+        rng = common.sub_rng(ctx.seed, 'C20', 'twins', k)
+        Colour = E.EEnum('Colour', literals=['RED', 'GREEN'])
+        Weight = E.EEnum('Weight', literals=['PLAIN', 'BOLD'])
+        types_ = [Colour, Weight, E.EString, E.EInt, E.EBoolean, E.EDate]
+        t1, t2 = rng.sample(types_, 2)
+        nreq = rng.randint(0, 2)
+
+        def make(t):
+            return E.EOperation('render', params=[E.EParameter(f'a{i}', E.EInt, required=True) for i in range(nreq)] +
+                                [E.EParameter('style', t, required=False)])
+        P, Q = E.EClass('P'), E.EClass('Q')
+        PS = E.EClass('PS', superclass=(P,))
+        op1, op2 = make(t1), make(t2)
+        P.eOperations.append(op1)
+        early = PS()
+        Q.eOperations.append(op2)
+        ctx.evaluations += 1
+        ctx.count('twins')
+        ctx.nontriv(('twins', k))
+        for who, o, t in (('instance of the first class', P(), t1), ('instance of its subtype created before the second declaration', early, t1),
+                          ('instance of the second class', Q(), t2)):
+            sig = inspect.signature(o.render)
+            d = sig.parameters['style'].default
+            want = t.default_value
+            if not (d is want or (d == want and type(d) is type(want))):
+                ctx.violate({'clause': 'default-value', 'twins': True},
+                            f'default-value: render(…, style: {t1.name}) on P and render(…, style: {t2.name}) on Q: {who} has style={d!r}, '
+                            f'its own declaration says {want!r}', {'twins': k, 'types': [t1.name, t2.name]})
+                return
+
+
+def _ecore():
+    from pyecore import ecore as E
+    return E
+
+
 def signature_pass(ctx):
     from pyecore import ecore as E
     lines, reals = [], []
@@ -471,7 +514,8 @@ def static_case(ctx, h, lines, reals):
             body.append(f'    @classmethod\n    def {nm}(cls{"".join(", " + p for p in pstr)}):\n        return {i}')
             entries.append((nm, nm, 'class', ['cls'] + ps, nopt))
         elif kind == 'dunder':
-            nm = rng.choice(['__str__', '__len__', '__call__', f'__custom{i}__'])
+            # (a private method `__m` is a double-underscore method too: the class dict holds it as `_Class__m`)
+            nm = rng.choice(['__str__', '__len__', '__call__', f'__custom{i}__', f'__private{i}', f'__helper{i}'])
             if any(e[0] == nm for e in entries):
                 continue
             body.append(f'    def {nm}(self{"".join(", " + p for p in pstr)}):\n        return {i}')
@@ -557,6 +601,7 @@ def run(ctx):
     history_pass(ctx)
     override_pass(ctx)
     static_pass(ctx)
+    twin_ops_pass(ctx)
 
 
 def search(ctx):
